@@ -417,4 +417,72 @@ theorem tokContract_parseCookies (L : Lib) (h : L.load = parseCookies) : TokCont
   rw [h]
   exact parseCookies_single name v hn hv
 
+/-! ### the jar through `copy()`: the rendering `" name=coded"` is read back as it was -/
+
+/-- as `matchAt_single`, with leading white space (`output(header='')` puts a space first) -/
+theorem matchAt_ws (pre name v : Str) (hpre : ∀ x ∈ pre, isSpaceC x = true) (hn : LegalName name)
+    (hv : ∀ c ∈ v, c.toNat < 256) :
+    matchAt cookiePattern (pre ++ (name ++ '=' :: quote v)) =
+      some (capSet (capSet [] 0 (name ++ '=' :: quote v, '=' :: quote v)) 1 (quote v, []), []) := by
+  have hl := hn.1
+  simp only [isLegalKey, Bool.and_eq_true, List.all_eq_true, Bool.not_eq_eq_eq_not, Bool.not_true] at hl
+  obtain ⟨hne, hall⟩ := hl
+  cases name with
+  | nil => simp at hne
+  | cons n0 nr =>
+    unfold matchAt
+    rw [cookiePattern_eq]
+    have hqlen : v.length ≤ (quote v).length := by
+      unfold quote
+      split
+      · exact Nat.le_refl _
+      · have := flatMap_translate_length v
+        simp only [List.length_cons, List.length_append]
+        omega
+    generalize hF : 4 * (pre ++ (n0 :: nr ++ '=' :: quote v)).length + 200 = F
+    have hFb : 3 * v.length + nr.length + pre.length + 60 ≤ F := by
+      rw [← hF]; simp only [List.length_append, List.length_cons]; omega
+    obtain ⟨F', rfl⟩ : ∃ F', F = F' + 3 := ⟨F - 3, by omega⟩
+    have hsp : isSpaceC n0 = false := (isLegal_tok (hall n0 (by simp))).2.2.2.2.2.2
+    simp only [seqs]
+    rw [m_seq]
+    unfold wsR
+    apply star_greedy_cls isSpaceC pre _ [] _ _ hpre (Or.inr ⟨n0, _, rfl, hsp⟩) _ _ (by omega)
+    rw [m_seq]
+    apply key_success n0 nr ('=' :: quote v) hall [] _ _
+    · intro x s c' hx
+      exact rest_fail x s hx _ c' _
+    · exact rest_success v hv _ _ _ rfl _ (by omega)
+    · omega
+
+theorem parseCookiesRaw_ws (pre name v : Str) (hpre : ∀ x ∈ pre, isSpaceC x = true) (hn : LegalName name)
+    (hv : ∀ c ∈ v, c.toNat < 256) :
+    parseCookiesRaw (pre ++ (name ++ '=' :: quote v)) = .ok [(name, quote v)] := by
+  have hne : (pre ++ (name ++ '=' :: quote v)).isEmpty = false := by simp
+  have hd : (name.head? == some '$') = false := by
+    have := hn.2.2
+    cases name with
+    | nil => rfl
+    | cons a t =>
+      simp only [List.head?_cons, ne_eq, Option.some.injEq] at this
+      simpa using this
+  unfold parseCookiesRaw
+  simp only [scan, hne, Bool.false_eq_true, if_false, matchAt_ws pre name v hpre hn hv,
+    (capGet_single name (quote v)).1, (capGet_single name (quote v)).2, Option.getD_some, hd, hn.2.1,
+    Bool.not_false]
+  have hscan : ∀ f acc, scan f [] true acc = some acc.reverse := by
+    intro f acc; cases f <;> simp [scan]
+  simp only [hscan, List.reverse_cons, List.reverse_nil, List.nil_append, applyItemsRaw, hn.2.1, hn.1,
+    Bool.not_true, Bool.or_self, Bool.false_eq_true, if_false, jarSet_nil]
+
+/-- `response.copy()` carries a one-cookie jar over exactly: same name, same coded value -/
+theorem copyJar_single (name v : Str) (hn : LegalName name) (hv : ∀ c ∈ v, c.toNat < 256) :
+    copyJar [(name, quote v)] = .ok [(name, quote v)] := by
+  unfold copyJar
+  have hr : renderJar [(name, quote v)] = [' '] ++ (name ++ '=' :: quote v) := by
+    simp [renderJar, sortJar, insertByKey, List.intercalate]
+  rw [hr]
+  simp only [List.isEmpty_cons, Bool.false_eq_true, if_false]
+  exact parseCookiesRaw_ws [' '] name v (by decide) hn hv
+
 end Ombott.Cookies
